@@ -112,10 +112,11 @@ def gen_model(rng, features=None):
             c['savorize'] = gen_savorize(rng, c)
         if hooks and rng.random() < 0.12:
             c['recognize'] = gen_recognize(rng, c, avail)
-        if rng.random() < 0.06 and params:
+        if rng.random() < 0.12 and params:
             p = rng.choice(params)
             if p['type'] in (('int',), ('str',), ('bool',)):
                 c['init_raises'] = (p['name'], {'int': 13, 'str': 'forbidden', 'bool': True}[p['type'][0]])
+                c['init_raise_style'] = rng.choice(['msg', 'bare', 'assert', 'keyerror', 'custom'])
         return c
 
     by_name = {}
@@ -232,7 +233,7 @@ def S(text, quoted=False, tag=None):
 def scalar_for(rng, t):
     k = t[0]
     if k == 'str':
-        w = rng.choice(WORDS + ['true', '12', '1.5', 'null', '~', '', '2001-01-01', 'yes'])
+        w = rng.choice(WORDS + ['true', '12', '1.5', 'null', '~', '', '2001-01-01', 'yes', 'forbidden', 'forbidden'])
         return S(w, quoted=(w in ('true', '12', '1.5', 'null', '~', '', '2001-01-01') or ' ' in w
                             or rng.random() < 0.2))
     if k == 'int':
